@@ -4,6 +4,7 @@ import Spydr.Names.Props.C17
 #print axioms Spydr.Names.conflictsFix_finished
 #print axioms Spydr.Names.makeValid_fresh_bounded
 #print axioms Spydr.Names.rename_recorded
+#print axioms Spydr.Names.rename_written
 #print axioms Spydr.Names.assign_all_distinct
 #print axioms Spydr.Names.assign_all_scopeOk
 #print axioms Spydr.Names.pinned_violates_scopeOk
